@@ -46,7 +46,9 @@ LEVEL_TEXT = (
 LEVEL_NOTE = "Trusted: pandas CSV reader/writer and pickle as transport; label-dict observation of arrays. Bounded sizes."
 
 PROCS = ["sysenv", "use phase", "end-of-life / recycling: Müll"]
-ITEMS = {"t": [2000, 2001, 2002], "p": ["p1", "p2"], "q": ["q1", "q2"]}
+ITEMS_A = {"t": [2000, 2001, 2002], "p": ["p1", "p2"], "q": ["q1", "q2"]}
+ITEMS_B = {"t": [1990, 1995, 2005], "p": ["steel", "wood"], "q": ["new", "old"]}  # decoy: same names, letters, lengths
+ITEMS = ITEMS_A
 NAMES = {"t": "Time", "p": "Product", "q": "Quality"}
 ARRS = ["", "t", "tp", "pt", "qtp", "pq"]
 
@@ -74,6 +76,8 @@ def build(spec):
     import flodym
 
     procs = flodym.make_processes(PROCS[: spec["nproc"]])
+    if spec.get("proc_order") == "reversed":  # a hand-built system: dict order differs from the order of the ids
+        procs = dict(reversed(list(procs.items())))
     flows = {}
     for k, (s, d, a, prov) in enumerate(spec["flows"]):
         name = f"{PROCS[s]} => {PROCS[d]}" + ("" if spec["flows"][:k].count(spec["flows"][k]) == 0 and not any(f[0] == s and f[1] == d for f in spec["flows"][:k]) else f" #{k}")
@@ -129,6 +133,30 @@ def run_case(spec, export):
     def fail(kind, what):
         return "fail", dict(case=case, tags=dict(kind=kind, export=export), what=f"system {spec}, export {export}: {what}")
 
+    # prelude: the same export was run before on a DECOY system with equally named, equally long dimensions
+    # but different items and values (exports must not remember anything from earlier exports)
+    global ITEMS
+    ITEMS = ITEMS_B
+    try:
+        decoy = build(spec)
+        dtmp = tempfile.mkdtemp(prefix="c19d_", dir="/dev/shm" if os.path.isdir("/dev/shm") else None)
+        try:
+            if export in ("numpy", "pandas"):
+                if not (export == "pandas" and any(not f.dims.letters for f in decoy.flows.values())):
+                    fx.convert_to_dict(decoy, export)
+            elif export == "pickle":
+                fx.export_mfa_to_pickle(decoy, os.path.join(dtmp, "d.pickle"))
+            elif export == "flows-csv":
+                if not any(not f.dims.letters for f in decoy.flows.values()):
+                    fx.export_mfa_flows_to_csv(decoy, os.path.join(dtmp, "f"))
+            else:
+                fx.export_mfa_stocks_to_csv(decoy, os.path.join(dtmp, "s"), with_in_and_out=export == "stocks-csv-io")
+        except Exception:
+            pass
+        finally:
+            shutil.rmtree(dtmp, ignore_errors=True)
+    finally:
+        ITEMS = ITEMS_A
     st, mfa = attempt(lambda: build(spec))
     if st == "raised":
         raise RuntimeError(f"harness could not build {spec}: {mfa}")
@@ -157,7 +185,7 @@ def run_case(spec, export):
                 return fail("dims", f"dimension_names {d.get('dimension_names')}")
             if {k: list(v) for k, v in d.get("dimension_items", {}).items()} != {NAMES[l]: ITEMS[l] for l in "tpq"}:
                 return fail("dims", f"dimension_items {d.get('dimension_items')}")
-            if list(d.get("processes", [])) != PROCS[: spec["nproc"]]:
+            if list(d.get("processes", [])) != [p.name for p in mfa.processes.values()]:
                 return fail("processes", f"processes {d.get('processes')}")
             if set(d["flows"]) != set(want_flows) or set(d["flow_dimensions"]) != set(want_flows) or set(d["flow_processes"]) != set(want_flows):
                 return fail("flows", f"flow keys {sorted(d['flows'])}")
@@ -255,11 +283,13 @@ def specs(tier, seed=0):
         if tier == "quick":
             two = [x for i, x in enumerate(two) if i % 23 == seed % 23]
         lists += [list(x) for x in two]
-        for fl in lists:
+        for n, fl in enumerate(lists):
             for sc in STOCK_CFGS:
                 if tier == "quick" and len(fl) == 2 and sc not in (STOCK_CFGS[0], STOCK_CFGS[2]):
                     continue
-                yield dict(nproc=nproc, flows=[list(f) for f in fl], stocks=sc)
+                orders = ("listed", "reversed") if (tier == "thorough" or (n + len(sc)) % 3 == 0) else ("listed",)
+                for po in orders:
+                    yield dict(nproc=nproc, flows=[list(f) for f in fl], stocks=sc, proc_order=po)
 
 
 # ---- to_dfs -----------------------------------------------------------------------------------------
